@@ -160,6 +160,31 @@ structure St (S D : Type) where
 
 def ptcScript (n : Nat) : List Bool := List.replicate n false
 
+/-- a goal state handed out by `nextGoal` becomes a root of the goal tree -/
+def addGoalRoot (tGoal : Array (Node S)) : Option (Nat × S) → Array (Node S)
+  | some x => tGoal.push ⟨x.2, none, x.2⟩
+  | none => tGoal
+
+/-- `goal->isStartGoalPairValid(startMotion->root, goalMotion->root)` -/
+def rootsValid (cfg : Cfg S D) (tS tG : Array (Node S)) (startMotion goalMotion : Nat) : Bool :=
+  match tS[startMotion]?, tG[goalMotion]? with
+  | some sm, some gm => cfg.pairValid sm.root gm.root
+  | _, _ => false
+
+/-- the solution path at the connection point: one step back on the start side (or, if `startMotion` is a
+root, on the goal side), start-tree states from the root down, goal-tree states up to the root -/
+def connectPath (tS tG : Array (Node S)) (startMotion goalMotion : Nat) : List S :=
+  match tS[startMotion]? with
+  | none => []
+  | some sm =>
+    match sm.parent with
+    | some sp => pathTo tS (sp + 1) sp [] ++ pathUp tG goalMotion
+    | none =>
+      pathTo tS (startMotion + 1) startMotion [] ++
+        (match tG[goalMotion]? with
+         | some gm => (match gm.parent with | some gp => pathUp tG gp | none => [])
+         | none => [])
+
 /-- the goal-sampling block at the top of the loop body. -/
 def sampleGoals (cfg : Cfg S D) (st : St S D) : St S D :=
   if st.tGoal.size = 0 || decide (st.pis.sampledGoalsCount < st.tGoal.size / 2) then
@@ -168,9 +193,7 @@ def sampleGoals (cfg : Cfg S D) (st : St S D) : St S D :=
       else
         goalOuter cfg.bounds cfg.valid cfg.goalSample cfg.maxGoalSamples 1 st.pis.sampledGoalsCount []
     let ptc' := if st.tGoal.size = 0 then r.2.2.length else st.ptc
-    let tGoal' := match r.1 with
-      | some x => st.tGoal.push ⟨x.2, none, x.2⟩
-      | none => st.tGoal
+    let tGoal' := addGoalRoot st.tGoal r.1
     let st' := { st with tGoal := tGoal', pis := { st.pis with sampledGoalsCount := r.2.1 }, ptc := ptc' }
     if tGoal'.size = 0 then { st' with status := .invalidGoal, done := true } else st'
   else st
@@ -196,20 +219,8 @@ def extend (cfg : Cfg S D) (st : St S D) (side : Bool) (u : S) : St S D :=
     let st1 := { st with tStart := tStart', tGoal := tGoal', fuelOut := st.fuelOut || fuelOut }
     let startMotion := if tgiStart then c.xmotion else added
     let goalMotion := if tgiStart then added else c.xmotion
-    let roots := match tStart'[startMotion]?, tGoal'[goalMotion]? with
-      | some sm, some gm => cfg.pairValid sm.root gm.root
-      | _, _ => false
-    if c.gs = .reached && roots then
-      let path := match tStart'[startMotion]? with
-        | none => []
-        | some sm =>
-          match sm.parent with
-          | some sp => pathTo tStart' (sp + 1) sp [] ++ pathUp tGoal' goalMotion
-          | none =>
-            pathTo tStart' (startMotion + 1) startMotion [] ++
-              (match tGoal'[goalMotion]? with
-               | some gm => (match gm.parent with | some gp => pathUp tGoal' gp | none => [])
-               | none => [])
+    if c.gs = .reached && rootsValid cfg tStart' tGoal' startMotion goalMotion then
+      let path := connectPath tStart' tGoal' startMotion goalMotion
       { st1 with exact := some path, done := true }
     else if tgiStart then
       match tStart'[c.xmotion]? with
